@@ -2,7 +2,7 @@
    protocol table (Model/C02Protocols.v) and the I/O glue run_C02.  Definitions only. *)
 From Coq Require Import ZArith List Bool.
 Import ListNotations.
-From SCMO Require Import Lib.Val Lib.PySlice Model.C02Defs Model.C02Protocols Gen.GenLayouts.
+From SCMO Require Import Lib.Val Lib.PySlice Model.C02Defs Model.C02Comp Model.C02Protocols Gen.GenLayouts Gen.GenComp.
 Open Scope Z_scope.
 
 Definition find_protocol (name : sname) : option protocol :=
@@ -21,8 +21,40 @@ Fixpoint extras_eqb (a b : list (Z * region)) : bool :=
   | _, _ => false
   end.
 
+
 Definition opt_playout_eqb (a : option playout) (b : playout) : bool :=
   match a with Some x => playout_eqb x b | None => false end.
+
+Definition find_comp (name : sname) : option compdef :=
+  match find (fun p => sname_eqb (fst p) name) gen_comps with Some p => Some (snd p) | None => None end.
+Definition find_comp_protocol (name : sname) : option (list playout) :=
+  match find (fun p => sname_eqb (fst p) name) comp_protocols with Some p => Some (snd p) | None => None end.
+
+Fixpoint arms_match (arms : list arm) (ps : list playout) : bool :=
+  match arms, ps with
+  | [], [] => true
+  | a :: arms', p :: ps' => opt_playout_eqb (arm_positions a) p && wf_p p && arms_match arms' ps'
+  | _, _ => false
+  end.
+
+(* a composite / bulk strategy is fine when its regenerated definition exists, is of the right sort and
+   every arm's positions (derived from the arm object's attributes) are well formed and equal the pinned ones *)
+Fixpoint lists_eqb (a b : list (list Z)) : bool :=
+  match a, b with
+  | [], [] => true
+  | x :: a', y :: b' => list_eqb x y && lists_eqb a' b'
+  | _, _ => false
+  end.
+Definition find_comp_literals (name : sname) : option (list (list Z)) :=
+  match find (fun p => sname_eqb (fst p) name) comp_literals with Some p => Some (snd p) | None => None end.
+
+Definition comp_ok (g : gen) : bool :=
+  match find_comp (g_name g), find_comp_protocol (g_name g), find_comp_literals (g_name g) with
+  | Some c, Some ps, Some lits =>
+    (match c with CBulk => g_kind g =? 0 | _ => g_kind g =? 3 end) && arms_match (comp_arms c) ps &&
+    lists_eqb (comp_consts c) lits
+  | _, _, _ => false
+  end.
 
 (* a registered strategy is fine when the pinned table knows it under the same kind and, for the
    single-protocol layouts (kind 1, 2): the positions derived from its attributes are well formed,
@@ -43,7 +75,7 @@ Definition registered_ok (g : gen) : bool :=
                         extras_eqb X (pr_extra p)
        | None => false
        end
-     else (g_kind g =? 0) || (g_kind g =? 3))
+     else ((g_kind g =? 0) || (g_kind g =? 3)) && comp_ok g)
   end.
 
 (* the constructor model reproduces the slices found on the object: read 2 always, read 1 unless the
@@ -107,6 +139,32 @@ Definition of_outcome (o : outcome (list orec)) : Val :=
   | RaiseE k => VL [VZ 2; VZ k]
   end.
 
+Definition of_crec (c : crec) : Val :=
+  VL [of_orec (cr_o c); ofZs (cr_mx c); of_olist (cr_dt c); of_olist (cr_rx c); of_olist (cr_rr c); of_olist (cr_tu c)].
+Definition of_coutcome (o : outcome (list crec)) : Val :=
+  match o with
+  | Accept l => VL [VZ 0; VL (map of_crec l)]
+  | Reject => VL [VZ 1]
+  | RaiseE k => VL [VZ 2; VZ k]
+  end.
+(* CEL-Seq2 barcode of an index: list of [index; barcode] *)
+Definition dec_cs2 (v : Val) : Z -> option (list Z) :=
+  fun bi => match find (fun e => getZ (nthV 0 e) =? bi) (getL v) with
+            | Some e => Some (getZs (nthV 1 e))
+            | None => None
+            end.
+
+Definition run_comp (c : compdef) (lkA lkB : lookup_t) (cs2 : Z -> option (list Z)) (recs : list mate) : Val :=
+  match c with
+  | CTchic t => of_coutcome (demux_tchic t lkA cs2 recs)
+  | CChictv v => of_coutcome (demux_chictv v lkA recs)
+  | CDual d => of_coutcome (demux_dual d lkA lkB recs)
+  | CBulk => match demux_bulk recs with
+             | Accept l => VL [VZ 0; VL (map (fun m => VL [ofZs (fst m); ofZs (snd m)]) l)]
+             | _ => bad
+             end
+  end.
+
 Definition dummy_gen : gen :=
   mkG (SName []) 9 (mkArgs 0 0 0 0 0 0 None None false)
       (mkC 0 0 0 0 0 0 None None []) (mkS [] [] [] None None) (mkW None None false) (mkRB 0 0 0 0 0 0) None.
@@ -152,5 +210,11 @@ Definition run_C02 (mode : Z) (v : Val) : Val :=
     end
   | 5 => (* the two table obligations, per strategy *)
     VL (map (fun g => VL [ofB (registered_ok g); ofB (derive_ok g)]) gen_table)
+  | 6 => (* composite / bulk strategy sid: [sid; whitelist answers arm A; arm B; CEL-Seq2 barcodes by index; reads] *)
+    let g := gen_at (getZ (nthV 0 v)) in
+    match find_comp (g_name g) with
+    | Some c => run_comp c (dec_table (nthV 1 v)) (dec_table (nthV 2 v)) (dec_cs2 (nthV 3 v)) (map dec_mate (getL (nthV 4 v)))
+    | None => VL [VZ 9]
+    end
   | _ => bad
   end.
